@@ -349,6 +349,9 @@ func TestBoundedC16Queue(t *testing.T) {
 	}
 	var rec func(initIdx, pos int)
 	rec = func(initIdx, pos int) {
+		if fails >= 200 {
+			return // enough evidence; do not enumerate the rest
+		}
 		if pos > 0 {
 			cases++
 			if d := runSeq(initIdx, pos); d != "" {
